@@ -24,32 +24,45 @@ func c13Handlers(c *vk.Ctx) {
 				case small[base] && wrap <= 2:
 					// deviation bound: any non-default choice costs one (the order in which the goroutines
 					// of a session notice the cancellation is decided by such choices)
-					add(base, wrap, end, 1, vk.Pick(c, 3, 4), true, vk.Pick(c, 120.0, 300.0))
+					add(base, wrap, end, 1, vk.Pick(c, 1, 2), true, vk.Pick(c, 200.0, 400.0))
 				case small[base] && wrap == 4:
-					add(base, wrap, end, 1, vk.Pick(c, 2, 3), true, vk.Pick(c, 120.0, 300.0))
+					add(base, wrap, end, 1, vk.Pick(c, 1, 2), true, vk.Pick(c, 60.0, 300.0))
 				case small[base]: // deep middleware stacks: many goroutines per session
-					add(base, wrap, end, 1, vk.Pick(c, 1, 2), true, vk.Pick(c, 120.0, 300.0))
+					add(base, wrap, end, 1, vk.Pick(c, 0, 1), true, vk.Pick(c, 60.0, 300.0))
 				default:
 					add(base, wrap, end, 1, vk.Pick(c, 0, 1), false, vk.Pick(c, 60.0, 300.0)) // every cut point (+ delays)
-					add(base, wrap, end, 1, vk.Pick(c, 1, 2), true, vk.Pick(c, 60.0, 300.0))
+					if c.Thorough() {
+						add(base, wrap, end, 1, 1, true, 300.0)
+					}
 				}
 			}
 		}
 	}
 	// every provided middleware singly over the router
-	for wrap := 6; wrap < len(harness.C13WrapNames); wrap++ {
+	for wrap := 6; wrap < harness.C13FirstRefusingWrap; wrap++ {
 		for end := 0; end < 3; end++ {
-			add(2, wrap, end, 1, vk.Pick(c, 2, 3), true, vk.Pick(c, 120.0, 300.0))
+			add(2, wrap, end, 1, vk.Pick(c, 1, 2), true, vk.Pick(c, 120.0, 300.0))
+		}
+	}
+	// wrappers that refuse part of the history: the rejection is produced by the middleware itself and
+	// must not outlive the session either, whichever reply the stalled peer stops before
+	for wrap := harness.C13FirstRefusingWrap; wrap < len(harness.C13WrapNames); wrap++ {
+		for _, base := range []int{0, 2} {
+			add(base, wrap, 0, 1, vk.Pick(c, 1, 2), true, vk.Pick(c, 60.0, 300.0))
+			add(base, wrap, 2, 1, vk.Pick(c, 1, 2), true, vk.Pick(c, 60.0, 300.0))
+			for k := 0; k <= 3; k++ {
+				add(base, wrap, 1, k, vk.Pick(c, 1, 2), true, vk.Pick(c, 60.0, 300.0))
+			}
 		}
 	}
 	// stalled peer after 0 and 2 reads
 	for _, base := range []int{2, 3, 4} {
 		for _, k := range []int{0, 2} {
-			add(base, 0, 1, k, vk.Pick(c, 2, 3), true, vk.Pick(c, 60.0, 300.0))
-			add(base, 4, 1, k, vk.Pick(c, 1, 2), true, vk.Pick(c, 60.0, 300.0))
+			add(base, 0, 1, k, vk.Pick(c, 1, 2), true, vk.Pick(c, 60.0, 300.0))
+			add(base, 4, 1, k, vk.Pick(c, 0, 1), true, vk.Pick(c, 60.0, 300.0))
 		}
 	}
-	c.P.Rule = "E1: real handler compositions (8 bases: Default, Cache, Router, merges of them, SQLite in memory, the composition of cmd/mocrelay) x wrappers (none, MaxSubscriptions, unique filters, NIP-11 chain, Prometheus, a 3-deep stack; every provided middleware singly over the router) serving the client history [REQ, EVENT, COUNT, CLOSE, REQ] while a second connection publishes; the session is ended by an environment task that is enabled from the start (every cut point of the history is reached at bound 0), by cancel with a draining or stalled peer, or by closing the inbound channel; schedules: complete up to the stated deviation bound (any non-default scheduling choice counts one) or delay bound per job; oracle at quiescence: ServeNostr returned, no task spawned under the session alive, router registry and Prometheus gauges back to their previous values"
+	c.P.Rule = "E1: real handler compositions (8 bases: Default, Cache, Router, merges of them, SQLite in memory, the composition of cmd/mocrelay) x wrappers (none, MaxSubscriptions, unique filters, NIP-11 chain, Prometheus, a 3-deep stack; every provided middleware singly over the router; four wrappers configured to REFUSE the EVENT, the REQs/COUNT or everything, so that the middleware's own rejection is the reply in flight, with the peer stalling after 0-3 reads) serving the client history [REQ, EVENT, COUNT, CLOSE, REQ] while a second connection publishes; the session is ended by an environment task that is enabled from the start and whose step costs nothing wherever it is taken (every cut point of every explored schedule is reached), by cancel with a draining or stalled peer, or by closing the inbound channel; schedules: complete up to the stated deviation bound (any non-default scheduling choice counts one) or delay bound per job; oracle at quiescence: ServeNostr returned, no task spawned under the session alive, router registry and Prometheus gauges back to their previous values"
 	res := runJobs(c, jobs)
 	for i, r := range res {
 		if i%40 == 0 {
